@@ -21,7 +21,8 @@ RULE = ("random cases: x class x y class x fixed-point layout (gaps>=2) x mode {
         "positions, indices} x on/off-grid reference (incl. beyond both ends, unmatched extra reference points) x "
         "2x2 rules x alpha in {.25,.5,1,2,3.7,U(.1,6)} x containers, function and Weaver route; lattice part: all "
         "fixed-point layouts with gaps>=2 on integer grids of 3..N points x 4 rule pairs x 3 modes. non-trivial: at "
-        "least one interval whose integral had to move by more than 1e-6 of its scale; distinct by case fingerprint.")
+        "least one interval whose integral had to move by more than 1e-6 of its scale; distinct by case fingerprint."
+        " Input classes include the coincidence classes of gen.py (almost-uniform, nano-scale, [0,1]-spanning, zero-straddling grids; near-ties, pico-scale, centred values) and int32 / Series / tuple / strided / read-only containers; explicitly given fixed points come in any order with repetitions and optionally together with a (necessarily inert) search strategy; documented defaults are exercised by omitting the argument.")
 REQUIRED_MONITORS = ["c01:post"]
 ASSUMPTIONS = ["admissible inputs only: strictly increasing x, distinct fixed points one per matched reference point, "
                ">= 1 interior sample per interval (re-checked by the oracle; others are discarded and counted)"]
